@@ -140,7 +140,7 @@ def oracleHistory (ops : List COp) (outs : List String) (desired : Nat) (ties : 
         | some rrs =>
           match st.checkGet n t unchecked rrs with
           | some why => "fail:C05:" ++ why
-          | none => go ops' outs' (st.afterGet n rrs)
+          | none => go ops' outs' (st.afterGet n t rrs)
       | .prune =>
         match parsePruneOut out with
         | none => "fail:C15:unparsable-prune"
